@@ -133,18 +133,18 @@ Proof.
   change (set_mode (mkbuf [] [] SafeEscaped false) UnsafeEscaped) with (mkbuf [] [] UnsafeEscaped false).
   change (buf_write (mkbuf [] [] UnsafeEscaped false) s) with (mkbuf m_start s UnsafeEscaped true).
   unfold set_mode. cbn [bmode omode_eqb bopen]. unfold escape_to_end. cbn [bvalid bpend bmode bopen].
-  unfold escape_from. rewrite escape_loop_copy by (try assumption; lia).
+  unfold escape_from. rewrite ?frev_eq. rewrite escape_loop_copy by (try assumption; lia).
   assert (Hl : last_rune_invalid_rev (rev s ++ rev m_start) = false).
   { rewrite Er. cbn [app last_rune_invalid_rev]. now rewrite Hb. }
   rewrite Hl. rewrite <- rev_app_distr, rev_involutive.
   unfold end_redactable, whole. cbn [bvalid bpend bmode bopen]. rewrite app_nil_r.
   assert (Hnone : drop_suffix m_start (m_start ++ s) = None).
-  { unfold drop_suffix. rewrite rev_app_distr, Er. change (rev m_start) with [185;128;226].
+  { unfold drop_suffix. rewrite ?frev_eq. rewrite rev_app_distr, Er. change (rev m_start) with [185;128;226].
     cbn [app drop_prefix]. destruct (N.eqb 185 b0) eqn:E1; [apply N.eqb_eq in E1; apply N.ltb_lt in Hb; lia|reflexivity]. }
   rewrite Hnone.
   destruct (m_start ++ s) eqn:E0; [discriminate|]. rewrite <- E0. clear E0.
   unfold validate_all, whole. cbn [bvalid bpend bmode bopen]. rewrite app_nil_r.
-  unfold buf_take, buf_finalize. cbn [bmode bopen]. unfold escape_to_end, escape_from. cbn [bvalid bpend bmode bopen].
+  unfold buf_take, buf_finalize. cbn [bmode bopen]. unfold escape_to_end, escape_from. rewrite ?frev_eq. cbn [bvalid bpend bmode bopen].
   cbn [List.length escape_loop rev app].
   replace (last_rune_invalid_rev (rev ((m_start ++ s) ++ m_end))) with false
     by (rewrite rev_app_distr; reflexivity).
@@ -189,7 +189,7 @@ Proof.
   change (set_mode (mkbuf [] [] SafeEscaped false) SafeEscaped) with (mkbuf [] [] SafeEscaped false).
   change (buf_write (mkbuf [] [] SafeEscaped false) s) with (mkbuf [] s SafeEscaped false).
   change (set_mode (mkbuf [] s SafeEscaped false) SafeEscaped) with (mkbuf [] s SafeEscaped false).
-  unfold buf_take, buf_finalize. cbn [bmode bopen]. unfold escape_to_end, escape_from. cbn [bvalid bpend bmode bopen].
+  unfold buf_take, buf_finalize. cbn [bmode bopen]. unfold escape_to_end, escape_from. rewrite ?frev_eq. cbn [bvalid bpend bmode bopen].
   rewrite escape_loop_copy_nobrk by (try assumption; lia).
   cbn [rev app]. rewrite !app_nil_r.
   rewrite last_rune_ascii by now rewrite ascii_rev.
